@@ -204,6 +204,42 @@ def lagged_signal_loop(n_limit: int, c0: int, gate: str = "route", name: str = "
     return {"spec": {"name": name, "nodes": nodes, "bind": {}}, "inputs": inputs, "ref": ref, "template": f"lagged-signal({gate})"}
 
 
+def two_signal_loop(n_limit: int, c0: int, watchers: int = 1, name: str = "twosig"):
+    """`while count < N: tmp = a(count) [emits sa]; m = mid(tmp); count = b(m) [emits sb]` plus watchers that wait
+    for BOTH signals: the two productions of an iteration land in different steps, and a watcher runs once per
+    iteration, after the later one - never on the earlier signal alone with the other one already consumed."""
+    nodes = [
+        {"k": "route", "name": "gate", "params": [{"n": "count"}], "targets": ["a", "END"], "cond": ["lt", "count", n_limit], "then": "a", "else": "END", "open": True},
+        {"k": "fn", "name": "a", "params": [{"n": "count"}], "outs": ["tmp"], "emit": ["sa"], "beh": ["inc", "count"]},
+        {"k": "fn", "name": "mid", "params": [{"n": "tmp"}], "outs": ["m"], "beh": ["inc", "tmp"]},
+        {"k": "fn", "name": "b", "params": [{"n": "m"}], "outs": ["count"], "emit": ["sb"], "beh": ["inc", "m"]},
+    ]
+    inputs = {"count": c0}
+    trace = []
+    c = c0
+    while True:
+        trace.append(("gate", {}))
+        if not c < n_limit:
+            break
+        t = c + 1
+        trace.append(("a", {"tmp": t}))
+        m = t + 1
+        trace.append(("mid", {"m": m}))
+        c = m + 1
+        trace.append(("b", {"count": c}))
+    vals = _fold(inputs, trace)
+    vals.setdefault("count", c0)
+    counts = _counts(trace)
+    iters = counts.get("b", 0)
+    for j in range(watchers):
+        nodes.append({"k": "fn", "name": f"w{j}", "params": [{"n": "count"}], "outs": [f"seen{j}"], "wait": ["sa", "sb"], "beh": ["mark", "count", f"w{j}"]})
+        if iters:
+            counts[f"w{j}"] = iters
+            vals[f"seen{j}"] = (f"w{j}", c)
+    ref = {"trace": None, "values": vals, "counts": counts, "singleton_steps": False, "steps": len(trace) + iters}
+    return {"spec": {"name": name, "nodes": nodes, "bind": {}}, "inputs": inputs, "ref": ref, "template": f"two-signal(watchers={watchers})"}
+
+
 def nested_loop(n_limit: int, c0: int, body_len: int = 1, gate: str = "route", depth: int = 1):
     """T7: the counter loop wrapped as a nested graph inside a DAG: pre -> [loop] -> post."""
     inner = counter_loop(n_limit, c0 + 1, body_len, gate, name="inner")
